@@ -31,4 +31,10 @@ TEXT = {
   "note": "termination of the implementation is observed by a watchdog; wall-clock budgets excluded",
   "technique": "TLA+ model checking (TLC, safety + liveness) of the search loop + trace validation of recorded budget checks",
  },
+ "C20": {
+  "level": "TLC explores the recorder/file specification (GECsv: buffer, disk, flush, crash between any two actions) for all registration sequences of a small alphabet in both recording modes and checks AfterRegister, DiskIsPrefix and that a crash between registrations loses nothing (a flush-on-best-only variant must fail); real recorders in 54 (quick) configurations are driven with evaluation histories, the file is re-read from disk after every registration and validated by TLC against the expected table; SIGKILLed runs are validated as prefixes.",
+  "ref": "DESIGN.md section 4 C20",
+  "note": "kill points sampled; cells compared as strings; execution-time cell unconstrained",
+  "technique": "TLA+ model checking (TLC) of the buffered file with crash + trace validation of the on-disk bytes after every registration",
+ },
 }
